@@ -31,6 +31,11 @@ def scope(run, pid, extra=()):
     return closure(roots, depth=1 if run.tier == 'quick' else None, prog=run.prog)
 
 
+def c_dev10n(run):
+    r10_args.check_none_default_tests(run, run.prog.analysed_functions())
+    run.explanation = 'development run of R10n over the whole package'
+
+
 def c_dev(run):
     fs = run.prog.analysed_functions()
     r1_resolve.run_r1(run, fs)
@@ -39,7 +44,7 @@ def c_dev(run):
     run.explanation = 'development run of R1-R3 over the whole package'
 
 
-CHECKS = {'DEV': c_dev}
+CHECKS = {'DEV': c_dev, 'DEV10N': c_dev10n}
 
 
 STATIC_TRUST = ['CPython ast module (parser)', 'Python scoping, MRO and operator-dispatch semantics as modelled in sa/',
@@ -329,6 +334,13 @@ def c15(run):
     r10_args.check_order_tables(run)
     r10_args.check_recursion_options(run, prog.analysed_functions())
     r10_args.check_broadcast_stores(run, prog.analysed_functions())
+    r10_args.check_none_default_tests(run, prog.analysed_functions())
+    # accessors with a unit / order option: the single-value branch and the per-element branch call the same kernel with the same
+    # options (a multi-valued object answers in the unit that was asked for)
+    for k in r8_accessors.ACCESSORS:
+        g = prog.functions.get(k)
+        if g is not None and any(p_ in ('unit', 'units', 'order', 'flip') for p_ in g.allparams):
+            r8_accessors.check_accessor(run, g)
     r21_explog.check_ctor_forms(run)
     r21_explog.check_exp_dispatch(run)
     run.floor('R10l', 4)
@@ -452,6 +464,7 @@ def _scope_rules(run, pid, r1=True, r2=True, r9=True, generic=True):
             if any(p in ('unit', 'units') for p in f.allparams):
                 r10_args.check_unit_typestate(run, f)
         r10_args.check_recursion_options(run, [f for f in fs if f.key not in seen])
+        r10_args.check_none_default_tests(run, [f for f in fs if f.key not in seen])
         if not r1:
             r20_shapes.check_shapes(run, [f for f in fs if f.key not in seen])
         r15_closed.check_unchecked_sites(run, keys={f.key for f in fs if f.key not in seen})
@@ -533,6 +546,7 @@ def c02(run):
                                ['P0[0]*P1[0] - dot(P0[1:4], P1[1:4])', 'P0[0]*P1[1:4] + P1[0]*P0[1:4] + cross(P0[1:4], P1[1:4])'])
     r16_tables._qpow(run)
     r16_tables.check_trlog_dependence(run)
+    r21_explog.check_log_general(run)       # twist composition is log(exp(x) exp(y)): the logarithm's general branch and its guards
     r7_binary.run_r7(run, helpers=True, dunders=False)
     # the unchecked results of the group operations come from closed producers: in particular a transpose stands for the
     # inverse only where every receiver class is SO(n) (X ** -n through x.T in the shared SMPose method is wrong for SE(n))
@@ -628,6 +642,10 @@ def c05(run):
     r16_tables.check_expr_fn(run, 'base/transforms2d:xyt2tr', 'xyt2tr is covered by the slot table', 'T') if False else None
     r16_tables._trot2(run)
     r16_tables.check_double_cover(run)
+    # the representation constructors of the classes (AngVec, Eul, RPY, OA, EulerVec, Rx ...): what they store without the membership
+    # check comes from a closed producer (unit axis times sin, the base conversion function)
+    r15_closed.check_unchecked_sites(run, only=('AngVec', 'Eul', 'RPY', 'OA', 'EulerVec', 'AngleAxis', 'Rx', 'Ry', 'Rz', 'TwoVectors', 'Vec3', 'SO3', 'SE3',
+                                                'UnitQuaternion', 'Exp'))
     r19_angles.check_tr2rpy(run, r16_tables.RPY_WORDS)
     r19_angles.check_tr2eul(run, [('z', 0), ('y', 1), ('z', 2)])
     run.floor('R19', 33)
@@ -791,6 +809,9 @@ def c19(run):
 
 def c20(run):
     r16_tables.tables_c20(run)
+    # SE3 * spatial vector applies left.Ad(): the adjoint block table [[R, skew(t) R], [0, R]] and the route SE3.Ad -> base.adjoint
+    r16_tables._adjoint(run)
+    r16_tables.check_routes(run, [('pose3d:SE3.Ad', 'adjoint of a pose through base.adjoint', ['adjoint(self.A)', 'tr2adjoint(self.A)'], 'return')], rule='R16')
     r7_binary.check_dunder_deps(run, run.prog.func('spatialvector:SpatialInertia.__add__'))
     r3_ctor.run_r3(run, classes=['SpatialVector', 'SpatialVelocity', 'SpatialAcceleration', 'SpatialForce', 'SpatialMomentum', 'SpatialInertia'])
     # multi-valued operands: .A of a spatial-vector operand is a list when it holds several vectors
